@@ -289,8 +289,12 @@ func replayStored(path, repo, verif string) int {
 	scratch, _ := os.MkdirTemp("", "symgo-replay-")
 	defer os.RemoveAll(scratch)
 	ovFiles := map[string]string{filepath.Join(repo, "pkg/internal/verifrt/rt.go"): filepath.Join(verif, "rt", "rt.go")}
-	for _, f := range files[rec.Pkg] {
-		ovFiles[filepath.Join(repo, rec.Pkg, filepath.Base(f))] = f
+	for rel, fs := range files {
+		if rel == rec.Pkg || strings.HasPrefix(rel, "pkg/internal/") {
+			for _, f := range fs {
+				ovFiles[filepath.Join(repo, rel, filepath.Base(f))] = f
+			}
+		}
 	}
 	rp := &Replayer{repo: repo, verif: verif, scratch: scratch, ovFiles: ovFiles, files: files}
 	v := &Violation{Harness: rec.Harness, Label: rec.Label, Kind: rec.Kind, Model: rec.Inputs}
